@@ -63,7 +63,7 @@ fn hook_engine() -> Engine {
                 Scenario { name: "observation_cfg", weight: 1, run: c37::run_observation_cfg },
             ],
             quick_runs: 200_000,
-            thorough_runs: 20_000_000,
+            thorough_runs: 60_000_000,
             rule: "hook level: each run draws a small configuration (1-2 batch hooks forming a tick, or one top-level hook forming an observation; <=4 items over <=2 keys; 1-3 consecutive ticks with fixed arrivals), obtains the set S of outcome tuples the repository's hooks reach under bolero's real exhaustive driver (cached per configuration), then draws one legal outcome tuple from an independent reference description of the decision space and tests membership in S. Distinct = distinct (configuration, sampled reference outcome); non-trivial = the sampled outcome releases at least one item/snapshot AND at least one reference decision was not the first choice.",
             time_unit: "reference ticks/observations sampled",
             real: &[
